@@ -81,4 +81,19 @@ Definition round_half (n : Z) : Z :=
 
 Definition zcount (m : list bool) : Z := Z.of_nat (length (filter (fun b => b) m)).
 
+(** Python slice-bound normalisation for a list of length n: negative bounds count from the
+    end, everything is clamped to [0, n]. *)
+Definition norm_bound (n i : Z) : Z :=
+  let j := if i <? 0 then i + n else i in Z.max 0 (Z.min n j).
+
+(** [m[a:b] = v] on a 1-d array (a, b arbitrary integers, Python semantics). *)
+Fixpoint set_range_from {A} (i lo hi : Z) (m : list A) (v : A) : list A :=
+  match m with
+  | [] => []
+  | x :: r => (if (lo <=? i) && (i <? hi) then v else x) :: set_range_from (i + 1) lo hi r v
+  end.
+Definition set_slice {A} (m : list A) (a b : Z) (v : A) : list A :=
+  let n := Z.of_nat (length m) in
+  set_range_from 0 (norm_bound n a) (norm_bound n b) m v.
+
 End NP.
